@@ -95,12 +95,16 @@ struct Proven {
     layout: Vec<(usize, char)>,
 }
 
-fn prove(ctx: &mut Ctx, m: &Member, n_proofs: usize, seed: u64) -> Option<Proven> {
+fn prove<H: TranscriptHash>(ctx: &mut Ctx, m: &Member, n_proofs: usize, seed: u64) -> Option<Proven>
+where
+    F: Hashable<H> + Sampleable<H>,
+    G1Projective: Hashable<H>,
+{
     let circuits: Vec<FamCircuit> = (0..n_proofs).map(|i| FamCircuit::new(m.fp.clone(), seed + i as u64)).collect();
     let insts: Vec<Vec<Vec<F>>> = circuits.iter().map(|c| c.instances()).collect();
     let inst_refs: Vec<Vec<&[F]>> = insts.iter().map(|cols| cols.iter().map(|c| &c[..]).collect()).collect();
     let inst_refs2: Vec<&[&[F]]> = inst_refs.iter().map(|c| &c[..]).collect();
-    let mut tr = RecordingTranscript::<Blake2bState>::init();
+    let mut tr = RecordingTranscript::<H>::init();
     create_proof::<F, Scheme, _, _>(&m.params, &m.pk, &circuits, m.fp.n_committed, &inst_refs2, ChaCha8Rng::seed_from_u64(seed ^ 0xbeef), &mut tr)
         .expect("honest proving");
     let proof = tr.finalize();
@@ -110,7 +114,7 @@ fn prove(ctx: &mut Ctx, m: &Member, n_proofs: usize, seed: u64) -> Option<Proven
         .map(|cols| cols[..m.fp.n_committed].iter().map(|c| commit_to_instances::<F, Scheme>(&m.params, domain, c)).collect())
         .collect();
     take_log();
-    let ok = verify::<Blake2bState>(&m.params, m.pk.get_vk(), m.fp.n_committed, &insts, &coms, &proof);
+    let ok = verify::<H>(&m.params, m.pk.get_vk(), m.fp.n_committed, &insts, &coms, &proof);
     let events = take_log();
     if ok != Ok(true) {
         ctx.oracle_fail("honest-rejected", "honest proof rejected (C01)", json!({"params": format!("{:?}", m.fp), "seed": seed}));
@@ -162,13 +166,17 @@ fn other_point(i: usize) -> Vec<u8> {
     (G1Projective::generator() * F::from(i as u64 + 2)).to_affine().to_bytes().as_ref().to_vec()
 }
 
-fn mutate_all(ctx: &mut Ctx, m: &Member, p: &Proven, n_flips: usize, seed: u64) {
+fn mutate_all<H: TranscriptHash, H2: TranscriptHash>(ctx: &mut Ctx, m: &Member, p: &Proven, n_flips: usize, seed: u64)
+where
+    F: Hashable<H> + Sampleable<H> + Hashable<H2> + Sampleable<H2>,
+    G1Projective: Hashable<H> + Hashable<H2>,
+{
     let vk = m.pk.get_vk();
     let nc = m.fp.n_committed;
     let desc = json!({"params": format!("{:?}", m.fp), "k": m.k, "seed": seed, "n_proofs": p.insts.len()});
     let mut check = |ctx: &mut Ctx, class: &str, what: String, proof: &[u8], insts: &[Vec<Vec<F>>], coms: &[Vec<G1Projective>]| {
         ctx.count(&format!("mutant:{class}"));
-        match verify::<Blake2bState>(&m.params, vk, nc, insts, coms, proof) {
+        match verify::<H>(&m.params, vk, nc, insts, coms, proof) {
             Ok(false) => {}
             Ok(true) => ctx.oracle_fail(&format!("accepted-mutant:{class}"), "verifier accepted a mutated proof/statement", json!({"case": desc, "mutation": what})),
             Err(pn) => ctx.oracle_fail(&format!("panic-on-mutant:{class}"), "verifier panicked on a mutated proof/statement", json!({"case": desc, "mutation": what, "panic": pn})),
@@ -186,7 +194,10 @@ fn mutate_all(ctx: &mut Ctx, m: &Member, p: &Proven, n_flips: usize, seed: u64) 
             flagless[0] &= 0x7f; // clear the compression flag
             variants.push(("point-flag-cleared", flagless));
         } else {
-            let v = F::from_repr(orig.try_into().unwrap()).unwrap();
+            let v = match Option::<F>::from(F::from_repr(orig.try_into().unwrap())) {
+                Some(v) => v,
+                None => continue,
+            };
             variants.push(("scalar-other-canonical", (v + F::ONE).to_repr().as_ref().to_vec()));
             variants.push(("scalar-noncanonical-ff", vec![0xff; 32]));
             // value + modulus (non-canonical encoding of the same residue) when it fits in 256 bits
@@ -276,7 +287,7 @@ fn mutate_all(ctx: &mut Ctx, m: &Member, p: &Proven, n_flips: usize, seed: u64) 
     }
     // other transcript hash
     ctx.count("mutant:other-hash");
-    match verify::<PoseidonState<F>>(&m.params, vk, nc, &p.insts, &p.coms, &p.proof) {
+    match verify::<H2>(&m.params, vk, nc, &p.insts, &p.coms, &p.proof) {
         Ok(false) => {}
         other => ctx.oracle_fail("accepted-mutant:other-hash", "proof verified under a different transcript hash", json!({"case": desc, "result": format!("{other:?}")})),
     }
@@ -322,6 +333,13 @@ fn scalar_cases(ctx: &mut Ctx) {
             Err(_) => "none".to_string(),
         };
         ctx.case("scalar", true, &format!("scalar {hex}"), &ans);
+        let mut rd = &b[..];
+        let got = <F as Hashable<PoseidonState<F>>>::read(&mut rd);
+        let ans = match got {
+            Ok(x) => format!("some {}", mzkh::fe_hex(&x)),
+            Err(_) => "none".to_string(),
+        };
+        ctx.case("scalar-poseidon", true, &format!("scalar {hex}"), &ans);
     }
 }
 
@@ -354,17 +372,26 @@ fn main() {
     let other_circuit = setup_member(&FamParams { gates: vec![GateKind::Mul, GateKind::LinRot, GateKind::Additive, GateKind::Complex], ..every.clone() }, 31, 4);
     let other_fixed = setup_member(&FamParams { steps: 5, ..every.clone() }, 31, base.k);
     for np in [1usize, 2] {
-        if let Some(p) = prove(&mut ctx, &base, np, 300 + np as u64) {
-            mutate_all(&mut ctx, &base, &p, n_flips, 300 + np as u64);
+        if let Some(p) = prove::<Blake2bState>(&mut ctx, &base, np, 300 + np as u64) {
+            mutate_all::<Blake2bState, PoseidonState<F>>(&mut ctx, &base, &p, n_flips, 300 + np as u64);
             wrong_vk(&mut ctx, &base, &p, &[("other-k", &other_k), ("other-circuit", &other_circuit), ("other-fixed", &other_fixed)]);
         }
+    }
+    // the same under the Poseidon transcript (its scalar/point readers are separate code)
+    ctx.count("hash:poseidon");
+    if let Some(p) = prove::<PoseidonState<F>>(&mut ctx, &base, 1, 310) {
+        mutate_all::<PoseidonState<F>, Blake2bState>(&mut ctx, &base, &p, n_flips, 310);
     }
     for i in 0..n_members {
         let fp = sample_params(&mut rng);
         let m = setup_member(&fp, 3000 + i as u64, 4);
         let np = rng.gen_range(1..=2);
-        if let Some(p) = prove(&mut ctx, &m, np, 3000 + i as u64) {
-            mutate_all(&mut ctx, &m, &p, n_flips, 3000 + i as u64);
+        if i % 2 == 0 {
+            if let Some(p) = prove::<Blake2bState>(&mut ctx, &m, np, 3000 + i as u64) {
+                mutate_all::<Blake2bState, PoseidonState<F>>(&mut ctx, &m, &p, n_flips, 3000 + i as u64);
+            }
+        } else if let Some(p) = prove::<PoseidonState<F>>(&mut ctx, &m, np, 3000 + i as u64) {
+            mutate_all::<PoseidonState<F>, Blake2bState>(&mut ctx, &m, &p, n_flips, 3000 + i as u64);
         }
     }
     ctx.finish();
